@@ -4,11 +4,9 @@ import NmVerif.Index.Roll
 
   Stable names:
     `Index.shapeDiagonal s offset a1 a2 : Option Shape`  index::shape_diagonal: extents of the other axes in order, then
-        `min(s[a1] + min(offset,0), s[a2] - max(offset,0))` computed in `int` and stored UNCLAMPED into a `size_t`
-        (negative ⇒ 2^64-…: diagonal.offset-beyond-extent finding)
-    `Index.indexDiagonal s d offset a1 a2 : Option Idx`  index::diagonal: other axes take `d` in order, `res[a1] = last`,
-        `res[a2] = last + offset` — right for `offset ≥ 0` only (NumPy reads `(last - offset, last)` for `offset < 0`:
-        diagonal.negative-offset finding)
+        `max(0, min(s[a1] + min(offset,0), s[a2] - max(offset,0)))` (clamp repaired: "diagonal.offset-beyond-extent")
+    `Index.indexDiagonal s d offset a1 a2 : Option Idx`  index::diagonal: other axes take `d` in order,
+        `res[a1] = last + max(-offset,0)`, `res[a2] = last + max(offset,0)` (repaired: "diagonal.negative-offset")
     `Index.diagonalView s offset axis1 axis2 : Option IxView`   view::diagonal (axes normalised; `none` = failed unwrap, UB)
     `Index.diagflatView s k : Option IxView`   view::diagflat = indexer over `flatten(a)`; dst `(n+|k|, n+|k|)`;
         `(i0,i1)`: `i1 = i0 + k ⇒ flat source index `i0 + min(k,0)`, else fill (0)
@@ -30,7 +28,8 @@ def shapeDiagonal (s : Shape) (offset : Int) (a1 a2 : Nat) : Option Shape :=
   | some n1, some n2 =>
       let src1 : Int := if offset < 0 then (n1 : Int) + offset else n1
       let src2 : Int := if offset > 0 then (n2 : Int) - offset else n2
-      some (othersAux a1 a2 0 s ++ [i2u (if src1 < src2 then src1 else src2)])
+      let m : Int := if src1 < src2 then src1 else src2
+      some (othersAux a1 a2 0 s ++ [i2u (if m < 0 then 0 else m)])
   | _, _ => none
 
 /-- result container (zero-initialised, `dim` entries) filled at the non-diagonal positions from `d` in order -/
@@ -44,7 +43,8 @@ def scatterOthers (a1 a2 : Nat) : Nat → Nat → Idx → Idx
 
 def indexDiagonal (s : Shape) (d : Idx) (offset : Int) (a1 a2 : Nat) : Option Idx :=
   match d.getLast? with
-  | some last => some (((scatterOthers a1 a2 0 s.length d).set a1 last).set a2 (i2u ((last : Int) + offset)))
+  | some last => some (((scatterOthers a1 a2 0 s.length d).set a1 (last + (if offset < 0 then (-offset).toNat else 0))).set a2
+      (last + (if offset > 0 then offset.toNat else 0)))
   | none => none
 
 def diagonalView (s : Shape) (offset axis1 axis2 : Int) : Option IxView :=
